@@ -610,7 +610,7 @@ def resym(x, table):
     return x
 
 
-INT_SYMS = {"a": "<0>", "b": "<1>", "c": "<2>"}               # token ids; 0 is falsy
+INT_SYMS = {"a": "<0>", "b": "<4>", "c": "<7>"}               # sparse token ids; 0 is falsy
 FRESH_SYMS = {"a": "u03B1", "b": "u03B2", "c": "u03B3"}      # characters CPython does not cache: every occurrence of a
 #                                                              token (in the grammar, in the query) is a distinct object
 
